@@ -111,6 +111,21 @@ def destructure {τ ν : Type} (whole : List Int → ν) (scalar : Int → ν) (
   | [t] => [(t, whole vs)]
   | ts => ts.zip (vs.map scalar)
 
+/-- the statement sequence `p0 = t.0; p1 = t.1; …`, first component first: each assignment acts on
+    the store the previous ones left (`assign s target value` = the store after `target = value`, the
+    place expression `target` being evaluated in `s`) -/
+def assignInOrder {σ τ ν : Type} (assign : σ → τ → ν → σ) (scalar : Int → ν) : σ → List τ → List Int → σ
+  | s, t :: ts, v :: vs => assignInOrder assign scalar (assign s t (scalar v)) ts vs
+  | s, _, _ => s
+
+/-- `let (a0, .., a_{k-1}) = payload; p0 = a0; p1 = a1; …` (a single target: `p0 = payload;`) as a
+    store transformer -/
+def assignSeq {σ τ ν : Type} (assign : σ → τ → ν → σ) (whole : List Int → ν) (scalar : Int → ν)
+    (s : σ) (targets : List τ) (vs : List Int) : σ :=
+  match targets with
+  | [t] => assign s t (whole vs)
+  | ts => assignInOrder assign scalar s ts vs
+
 /-! ## std::cmp -/
 
 /-- `std::cmp::min_by(v1, v2, compare)`: "returns the first argument if the comparison determines
